@@ -155,6 +155,9 @@ def units(tier):
     wrap("C09.sink.PHRQ_io_punch_msg", unit_stream_sink, "punch_msg", "punch_ostream", "punch_on")
     us.append(("C09.lines.split_pairing", unit_split_pairing))
     wrap("C09.format.fpunchf_helper_complete_output", unit_format_retry)
+    from props import c09_printall as PA
+    from props.common import wrap as _wrap
+    _wrap(us, "C09.print_all.state_reset_independent_of_output_switches", PA.unit_print_all)
     return us
 
 
